@@ -38,6 +38,14 @@ func (e *Engine) newFctx(fi *FuncInfo) *fctx {
 				add(cl.Props)
 			}
 		}
+		for _, cc := range fx.con.Closures {
+			for _, cl := range cc.Requires {
+				add(cl.Props)
+			}
+			for _, cl := range cc.Ensures {
+				add(cl.Props)
+			}
+		}
 		sort.Strings(fx.props)
 	}
 	// closures bound once to locals
@@ -284,7 +292,7 @@ func (fx *fctx) runHooks(st *State, where string, n int, callee string, node ast
 		if where != "entry" && h.N != n {
 			continue
 		}
-		if where == "call" && h.Callee != callee {
+		if (where == "call" || where == "precall") && h.Callee != callee {
 			continue
 		}
 		cl := h.Stmts
@@ -311,6 +319,12 @@ func (fx *fctx) runHooks(st *State, where string, n int, callee string, node ast
 		}
 		b := fx.visibleBindings(st, pos)
 		for i, r := range rets {
+			if where == "precall" {
+				if r != nil {
+					b[fmt.Sprintf("arg%d", i)] = r
+				}
+				continue
+			}
 			b[fmt.Sprintf("ret%d", i)] = r
 			if len(rets) == 1 {
 				b["ret"] = r
@@ -360,7 +374,7 @@ func (fx *fctx) ghostAssignedIn(s ast.Stmt) []string {
 		}
 		in := false
 		switch h.Where {
-		case "call":
+		case "call", "precall":
 			for ce, ref := range fx.callIndex {
 				if ref.name == h.Callee && ref.n == h.N && inside(ce.Pos()) {
 					in = true
